@@ -4,7 +4,8 @@ import Midgard.Proofs.ConfigDoc
 
 /-!
 Driver for C19.  One *history* per line:  `c19 run op op op …` answers one token per op.
-Two configurations live in the world: 0 (`main`) and 1 (`fb`); `L:1` makes 1 the fallback of 0.
+Three configurations live in the world: 0 (`main`), 1 (`fb`) and 2 (`fb2`); `L:1` makes 1 the fallback of 0,
+`K:1` makes 2 the fallback of 1 (so that 0 has a fallback chain of length 2 when both are set).
 Text fields are hex (`.` = empty), `-` is None.
 
  mutating ops (answer `ok`, `err:<kind>`, for O also `;unused=<hex,…>`)
@@ -15,10 +16,16 @@ Text fields are hex (`.` = empty), `-` is None.
   F:cfg:allownew:casesensitive:source:text             update_from_file (text of the file)
   P:cfg:-|[]|p,p,~                                     profiles setter
   M:cfg:-|name                                         master_section setter
-  L:0|1                                                fallback link
+  L:0|1                                                fallback link 0 -> 1
+  K:0|1                                                fallback link 1 -> 2
   V:cfg:k=v,k=v                                        update_vars
  queries
   g:cfg:key:value|-:section|-:default|-                cfg.get
+  G:cfg:key:value|-:section|-:default|-:callvars:rdefault|-
+                                                       e = cfg.get(…): key, e.str, e.source, position in the fallback chain of the
+                                                       configuration whose variables e holds, e.replaced, e.replace(default=rdefault,
+                                                       **callvars), and .list/.dict/.bool/.int of e.replaced
+  I:cfg:section:key:callvars:rdefault|-                e = cfg[section][key]: the same observations
   i:cfg:name                                           cfg[name]
   e:cfg:key:section|-                                  cfg.exists
   s:cfg                                                cfg.sources
@@ -38,18 +45,24 @@ open Midgard.Proto Midgard.Config
 structure World where
   c0 : Cfg
   c1 : Cfg
+  c2 : Cfg
   linked : Bool
+  linked2 : Bool
 
-def World.get (w : World) (i : Nat) : Cfg := if i = 0 then w.c0 else w.c1
-def World.set (w : World) (i : Nat) (c : Cfg) : World := if i = 0 then { w with c0 := c } else { w with c1 := c }
+def World.get (w : World) (i : Nat) : Cfg := if i = 0 then w.c0 else if i = 1 then w.c1 else w.c2
+def World.set (w : World) (i : Nat) (c : Cfg) : World :=
+  if i = 0 then { w with c0 := c } else if i = 1 then { w with c1 := c } else { w with c2 := c }
+/-- the configuration followed by its fallback configurations -/
 def World.chain (w : World) (i : Nat) : List Cfg :=
-  if i = 0 then (if w.linked then [w.c0, w.c1] else [w.c0]) else [w.c1]
+  let ch1 := if w.linked2 then [w.c1, w.c2] else [w.c1]
+  if i = 0 then (if w.linked then w.c0 :: ch1 else [w.c0]) else if i = 1 then ch1 else [w.c2]
 
 def hx (s : String) : String := encodeHex s
 def unhx? (s : String) : Option String := decodeHex? s
 def optHex? (s : String) : Option (Option String) := if s = "-" then some none else (unhx? s).map some
 def bool? (s : String) : Option Bool := if s = "1" then some true else if s = "0" then some false else none
-def idx? (s : String) : Option Nat := if s = "0" then some 0 else if s = "1" then some 1 else none
+def idx? (s : String) : Option Nat :=
+  if s = "0" then some 0 else if s = "1" then some 1 else if s = "2" then some 2 else none
 
 def kvs? (s : String) (sep : String) : Option (List (String × Option String)) :=
   if s = "-" || s = "[]" then some [] else
@@ -94,6 +107,22 @@ def mutRes (e : Option Err) : String := match e with | none => "ok" | some e => 
 /-- sort strings (for sets) -/
 def sortStrs (l : List String) : List String := (l.toArray.qsort (· < ·)).toList
 
+def showR : Except RErr String → String
+  | .ok s => hx s
+  | .error .recursion => "!recursion"
+  | .error .unsupportedSpec => "unsupported-spec"
+
+/-- what the harness looks at on an entry that a lookup handed back: `.replaced`, `.replace(default, **callvars)` and the
+typed accessors of the replaced entry -/
+def showLook (d : Nat) (k : String) (e : Entry) (r0 rx : Except RErr String) : String :=
+  let acc := match r0 with
+    | .ok s =>
+      showList hx (asList s) ++ ":" ++ showList (fun (k, x) => s!"{hx k}={hx x}") (asDict s) ++ ":" ++
+      (match asBool s with | .ok b => showBool b | .error _ => "!value") ++ ":" ++
+      (match asInt s with | .ok n => toString n | .error _ => "!value")
+    | .error _ => "-:-:-:-"
+  s!"ok:{hx k}:{hx e.value}:{hx e.source}:{d}:{showR r0}:{showR rx}:{acc}"
+
 def step (w : World) (op : String) : Option (World × String) :=
   match op.splitOn ":" with
   | ["U", c, sec, key, val, prof, src, an, mt] => do
@@ -136,6 +165,9 @@ def step (w : World) (op : String) : Option (World × String) :=
   | ["L", b] => do
     let b ← bool? b
     pure ({ w with linked := b }, "ok")
+  | ["K", b] => do
+    let b ← bool? b
+    pure ({ w with linked2 := b }, "ok")
   | ["V", c, d] => do
     let i ← idx? c; let d ← kvsStr? d
     pure (w.set i ((w.get i).updateVars d), "ok")
@@ -144,6 +176,19 @@ def step (w : World) (op : String) : Option (World × String) :=
     match get (w.chain i) key val sec dflt with
     | .ok (k, e) => pure (w, s!"ok:{hx k}:{hx e.value}:{hx e.source}")
     | .error e => pure (w, s!"err:{showErr e}")
+  | ["G", c, key, val, sec, dflt, cv, rd] => do
+    let i ← idx? c; let key ← unhx? key; let val ← optHex? val; let sec ← optHex? sec; let dflt ← optHex? dflt
+    let cv ← kvsStr? cv; let rd ← optHex? rd
+    match getReplaced (w.chain i) key val sec dflt [] none, getReplaced (w.chain i) key val sec dflt cv rd with
+    | .ok (d, k, e, r0), .ok (_, _, _, rx) => pure (w, showLook d k e r0 rx)
+    | .error e, _ => pure (w, s!"err:{showErr e}")
+    | _, .error e => pure (w, s!"err:{showErr e}")
+  | ["I", c, sec, key, cv, rd] => do
+    let i ← idx? c; let sec ← unhx? sec; let key ← unhx? key; let cv ← kvsStr? cv; let rd ← optHex? rd
+    match itemReplaced (w.chain i) sec key [] none, itemReplaced (w.chain i) sec key cv rd with
+    | .ok (d, e, r0), .ok (_, _, rx) => pure (w, showLook d key e r0 rx)
+    | .error e, _ => pure (w, s!"err:{showErr e}")
+    | _, .error e => pure (w, s!"err:{showErr e}")
   | ["i", c, name] => do
     let i ← idx? c; let name ← unhx? name
     match getItem (w.chain i) name with
@@ -204,7 +249,7 @@ def runOps (w : World) : List String → List String → Option (List String)
 
 def handle : List String → Option String
   | "c19" :: "run" :: ops =>
-    (runOps ⟨Cfg.new "main", Cfg.new "fb", false⟩ ops []).map (fun outs => " ".intercalate outs)
+    (runOps ⟨Cfg.new "main", Cfg.new "fb", Cfg.new "fb2", false, false⟩ ops []).map (fun outs => " ".intercalate outs)
   | _ => none
 
 end Driver.C19
